@@ -3,6 +3,14 @@ network run."""
 from checks import gpbft_common as g
 
 
+# clauses of the property that are (so far) theorems about single calls on arbitrary states, not about runs; the per-op
+# oracles judge them on every honest participant of every run. Updated when Props/C07 §RunLevel covers them.
+PARTIAL = ["'every message it emits is valid and acceptable to its peers': run-level theorem emitted_valid — see Props/C07 "
+           "§RunLevel if present; otherwise judged by the badhonest oracle (every honest broadcast through a peer's real validator)",
+           "vote choice at run level (QUALITY-tally invariant, candidate completeness): one-call theorems prepare0_value, "
+           "converge_adopts_best_valid + per-op oracles; completeness of the candidate set is oracle-only unless §RunLevel proves it"]
+
+
 def run(ctx):
     ctx.prove()
     g.network(ctx, "C07-")
@@ -15,6 +23,14 @@ def run(ctx):
         trusted_base=g.TRUSTED,
         assumptions=["delivered messages passed the real validator (C05): MsgValid, the hypothesis of no_internal_error_or_panic(_participant)",
                      "the instance is started once, before anything else (Participant.beginInstance); non-empty input; total scaled "
-                     "power > 0 (each shown necessary by a decide-checked example in Props/C07)"],
+                     "power > 0 (each shown necessary by a decide-checked example in Props/C07)",
+                     "reading of 'internal error': a validated message for another base, other supplemental data, another "
+                     "instance, or arriving after termination is REFUSED by gpbft.Receive with ErrValidationWrongBase / "
+                     "WrongSupplement / … — Participant.ReceiveMessage wraps every Receive error, these included, in "
+                     "ErrReceivedInternalError (participant.go:178), so errors.Is(err, ErrReceivedInternalError) holds for them "
+                     "too; theorem and oracle count these four refusals as validation outcomes the validator cannot decide "
+                     "without the instance's input (the harness classifies WrongBase/WrongSupplement first), and everything "
+                     "else wrapped in ErrReceivedInternalError as a violation"],
         search=g.search("C07-"),
+        partial=PARTIAL,
     )
